@@ -32,7 +32,9 @@ def e1(ctx):
     for cfg in (["MCListing_quick.cfg"] if ctx.quick else ["MCListing_quick.cfg", "MCListing_deep.cfg", "MCListing_wide.cfg",
                                                             "MCListing_flags.cfg"]):
         ctx.model_check("MCListing", cfg, coverage=False, timeout=1500)
-    ctx.model_check("MCListing", "MCListing_cov.cfg", required_actions=ACTIONS, timeout=600)
+    # TLC's -coverage does not terminate on this module: every step of the model is shown reachable by witnesses instead
+    ctx.model_check("MCListing", "MCListing_actions.cfg", expect_violated=tuple("W_Never" + a for a in ACTIONS), coverage=False,
+                    extra=["-continue"], tag="actions", timeout=600)
     for w in WITNESSES:
         ctx.model_check("MCListing", "MCListing_%s.cfg" % w, expect_violated=(w,), coverage=False, tag=w, timeout=600)
 
